@@ -589,7 +589,7 @@ func (r *readerRun) run(stream []byte) (evs []Ev) {
 			}
 			done <- out
 		}()
-		out = r.exec(sc)
+		r.exec(sc, &out)
 	}()
 	select {
 	case out := <-done:
@@ -601,7 +601,8 @@ func (r *readerRun) run(stream []byte) (evs []Ev) {
 	return evs
 }
 
-func (r *readerRun) exec(sc *xport.ScriptConn) (out []Ev) {
+func (r *readerRun) exec(sc *xport.ScriptConn, outp *[]Ev) (out []Ev) {
+	defer func() { *outp = out }()
 	p := r.p
 	c, err := NewConn(sc, ConnOpts{Role: p.Role, Pmce: p.Pmce, RBuf: p.RBuf})
 	if err != nil {
